@@ -6,15 +6,19 @@ import SC.Proofs.SrcCompareB
 open GoSsa Gen.Src Utf8
 namespace GoSsa.Byt
 
+section
+variable (p : Prog) (hfc : p.find? (fun fn => fn.name == "clamp") = some byt_clamp)
+
 macro "cmplb_run" "[" ds:Lean.Parser.Tactic.simpLemma,* "]" : tactic =>
   `(tactic| src_run [byt_Compare, byt_Compare_b0, byt_Compare_b1, byt_Compare_b2, byt_Compare_b3, byt_Compare_b4, byt_Compare_b5, byt_Compare_b6, byt_Compare_b7, byt_Compare_b8, byt_Compare_b9, byt_Compare_b10, byt_Compare_b11, byt_Compare_b12, byt_Compare_b13, byt_Compare_b14, byt_Compare_b15, byt_Compare_b16, byt_Compare_b17, byt_Compare_b18, byt_Compare_b19, byt_Compare_b20, byt_Compare_b21, byt_Compare_b22, byt_Compare_b23, byt_Compare_b24, byt_Compare_b25, byt_Compare_b26, $ds,*])
 
+include hfc in
 set_option maxHeartbeats 4000000 in
 theorem cmp_loopB (s t : Bytes) (r0 o0 r1 o1 : Nat) (h : Heap) (hls : s.length < 4611686018427387904) (hlt : t.length < 4611686018427387904) :
     ∀ (d i : Nat) (env : Array (List Val)), s.length - i = d → i ≤ s.length → i ≤ t.length → env.size = 80 →
       (env.getD 0 [] = [.str s r0 o0]) → (env.getD 1 [] = [.str t r1 o1]) → (env.getD 13 [] = [.int i]) →
       ∀ fuel, 30 * d + 60 * s.length + 160 ≤ fuel →
-        run P true fuel ⟨byt_Compare, env, 3, [.len 14 (.r 0), .bin 15 .lt .i64 (.r 13) (.r 14)], .cond (.r 15) 4 2⟩ h
+        run p true fuel ⟨byt_Compare, env, 3, [.len 14 (.r 0), .bin 15 .lt .i64 (.r 13) (.r 14)], .cond (.r 15) 4 2⟩ h
         = .ok [.int (A.cmpAsciiB Fold.caseFold (s.drop i) (t.drop i))] h := by
   intro d
   induction d with
@@ -35,7 +39,7 @@ theorem cmp_loopB (s t : Bytes) (r0 o0 r1 o1 : Nat) (h : Heap) (hls : s.length <
         have : (t.drop s.length).length = t'.length + 1 := by rw [hdt]; rfl
         simp at this
         simp [A.cmpAsciiB]; congr 1; omega
-    src_run [byt_Compare, byt_Compare_b2, hsz, h0, h1, h11, hw, run_call_fn (hb := nb_clamp) (hf := find_clamp), clamp_run, hA]
+    src_run [byt_Compare, byt_Compare_b2, hsz, h0, h1, h11, hw, run_call_fn (hb := Str.nb_clamp_byt) (hf := hfc), clamp_run p, hA]
   | succ d ih =>
     intro i env hd hi hit hsz h0 h1 h11 fuel hf
     simp [hsz] at h0 h1 h11
@@ -91,7 +95,7 @@ theorem cmp_loopB (s t : Bytes) (r0 o0 r1 o1 : Nat) (h : Heap) (hls : s.length <
           simp only [A.cmpAsciiB, ne_eq, hna, not_false_eq_true, if_true, List.length_cons]
         rw [hA]
         obtain ⟨m, rfl⟩ : ∃ m, fuel = m + 17 := ⟨fuel - 17, by omega⟩
-        have hr := cmp_runesB h (s.drop i).length (s.drop i) (t.drop i) r0 (o0 + i) r1 (o1 + i)
+        have hr := cmp_runesB p hfc h (s.drop i).length (s.drop i) (t.drop i) r0 (o0 + i) r1 (o1 + i)
         simp only [byt_Compare, byt_Compare_b0, byt_Compare_b1, byt_Compare_b2, byt_Compare_b3, byt_Compare_b4, byt_Compare_b5, byt_Compare_b6, byt_Compare_b7, byt_Compare_b8, byt_Compare_b9, byt_Compare_b10, byt_Compare_b11, byt_Compare_b12, byt_Compare_b13, byt_Compare_b14, byt_Compare_b15, byt_Compare_b16, byt_Compare_b17, byt_Compare_b18, byt_Compare_b19, byt_Compare_b20, byt_Compare_b21, byt_Compare_b22, byt_Compare_b23, byt_Compare_b24, byt_Compare_b25, byt_Compare_b26, List.drop_zero] at hr
         have htk1 : List.take (s.length - i) (List.drop i s) = List.drop i s := List.take_of_length_le (by simp)
         have htk2 : List.take (t.length - i) (List.drop i t) = List.drop i t := List.take_of_length_le (by simp)
@@ -110,30 +114,21 @@ theorem cmp_loopB (s t : Bytes) (r0 o0 r1 o1 : Nat) (h : Heap) (hls : s.length <
       rw [hdt]
       have hA : A.cmpAsciiB Fold.caseFold (s.drop i) [] = Utf8.clamp ((s.length : Int) - (t.length : Int)) := by
         rw [hds]; simp [A.cmpAsciiB]; congr 1; omega
-      src_run [byt_Compare, byt_Compare_b2, byt_Compare_b4, hsz, h0, h1, h11, hlt1, hlt1', hit2, hit2', hw, run_call_fn (hb := nb_clamp) (hf := find_clamp), clamp_run, hA]
+      src_run [byt_Compare, byt_Compare_b2, byt_Compare_b4, hsz, h0, h1, h11, hlt1, hlt1', hit2, hit2', hw, run_call_fn (hb := Str.nb_clamp_byt) (hf := hfc), clamp_run p, hA]
 
+include hfc in
 /-- `bytcase.Compare`: the regenerated program text returns the algorithm model's value, for all byte strings shorter than 2^62 bytes -/
 theorem Compare (s t : Bytes) (r0 o0 r1 o1 : Nat) (h : Heap) (hls : s.length < 4611686018427387904) (hlt : t.length < 4611686018427387904) :
-    Ret P true byt_Compare [.str s r0 o0, .str t r1 o1] h [.int (A.Compare (cfg true) s t)] h := by
+    Ret p true byt_Compare [.str s r0 o0, .str t r1 o1] h [.int (A.Compare (cfg true) s t)] h := by
   refine ⟨90 * s.length + 161, fun fuel hf => ?_⟩
   obtain ⟨m, rfl⟩ : ∃ m, fuel = (90 * s.length + 160 + m) + 1 := ⟨fuel - (90 * s.length + 161), by omega⟩
   rw [Frame.entry]
-  have hl := cmp_loopB s t r0 o0 r1 o1 h hls hlt s.length 0
+  have hl := cmp_loopB p hfc s t r0 o0 r1 o1 h hls hlt s.length 0
   simp only [byt_Compare, byt_Compare_b0, byt_Compare_b1, byt_Compare_b2, byt_Compare_b3, byt_Compare_b4, byt_Compare_b5, byt_Compare_b6, byt_Compare_b7, byt_Compare_b8, byt_Compare_b9, byt_Compare_b10, byt_Compare_b11, byt_Compare_b12, byt_Compare_b13, byt_Compare_b14, byt_Compare_b15, byt_Compare_b16, byt_Compare_b17, byt_Compare_b18, byt_Compare_b19, byt_Compare_b20, byt_Compare_b21, byt_Compare_b22, byt_Compare_b23, byt_Compare_b24, byt_Compare_b25, byt_Compare_b26] at hl
   cmplb_run []
   rw [hl _ (by omega) (by omega) (by omega) (by simp) (by simp) (by simp) (by simp) _ (by omega)]
   rfl
 
 
-/-- `EqualFold(s, t) = Compare(s, t) == 0` -/
-theorem EqualFold_of_Compare (s t : Val) (h h' : Heap) (c : Int) (hC : Ret P true byt_Compare [s, t] h [.int c] h') :
-    Ret P true byt_EqualFold [s, t] h [.bool (decide (c = 0))] h' := by
-  obtain ⟨n, hn⟩ := hC
-  refine ⟨n + 3, fun fuel hf => ?_⟩
-  obtain ⟨m, rfl⟩ : ∃ m, fuel = m + 3 := ⟨fuel - 3, by omega⟩
-  have hC' := hn (m + 2) (by omega)
-  rw [Frame.entry]
-  src_run [byt_EqualFold, byt_EqualFold_b0, run_call_fn (hb := nb_Compare) (hf := find_Compare), hC']
-
-
+end
 end GoSsa.Byt
